@@ -12,6 +12,7 @@ use rsdd::builder::bdd::RobddBuilder;
 use rsdd::builder::cache::AllIteTable;
 use rsdd::builder::decision_nnf::{DecisionNNFBuilder, SemanticDecisionNNFBuilder, StandardDecisionNNFBuilder};
 use rsdd::builder::sdd::{CompressionSddBuilder, SddBuilder};
+use rsdd::builder::BottomUpBuilder;
 use rsdd::constants::primes;
 use rsdd::repr::{BddPtr, DDNNFPtr, SddPtr, VarLabel, VarOrder, WmcParams};
 use rsdd::util::semirings::{
@@ -808,13 +809,286 @@ impl SubCheckT for ProductForm {
     }
 }
 
+// ---------------------------------------------------------------------------
+// diagrams with paths of 300..1400 decisions: a long chain of literals with a small block of variables at its top,
+// middle or bottom; the count is the product of the literals' weights and the block's brute-force count
+// ---------------------------------------------------------------------------
+
+#[derive(Clone, Debug, Serialize, Deserialize)]
+pub struct DeepCase {
+    /// chain length
+    pub k: u16,
+    /// block: number of variables (2..=5) and function bits over them
+    pub block: (u8, u32),
+    /// where the block's variables sit in the (linear) order: 0 above the chain, 1 below it, 2 in its middle
+    pub block_pos: u8,
+    /// disjunction (of the negated chain literals and the block) instead of conjunction
+    pub disj: bool,
+    pub seed: u64,
+}
+
+pub struct Deep;
+
+fn run_deep(case: &DeepCase, st: &mut Stats) -> CaseResult {
+    const P: u128 = primes::U64_LARGEST;
+    let k = (case.k as usize).clamp(8, 1500);
+    let bk = (case.block.0 as usize).clamp(2, 5);
+    let total = k + bk;
+    // positions (= labels, the order is linear) of the block's variables
+    let bstart = match case.block_pos % 3 {
+        0 => 0,
+        1 => k,
+        _ => k / 2,
+    };
+    let is_block = |l: usize| l >= bstart && l < bstart + bk;
+    let pol = |l: usize| splitmix(case.seed ^ (l as u64).wrapping_mul(0x9E37_79B9_7F4A_7C15)) & 1 == 1;
+    let mut bt = Tt::FALSE;
+    for a in 0..256usize {
+        if (case.block.1 >> (a & ((1 << bk) - 1))) & 1 == 1 {
+            bt.set(a, true);
+        }
+    }
+    if bt.is_const() {
+        bt = Tt::var(0).xor(Tt::var(1));
+    }
+    let b = RobddBuilder::<AllIteTable<BddPtr>>::new(VarOrder::linear_order(total));
+    let block_labels: Vec<usize> = (bstart..bstart + bk).collect();
+    let block_bdd = bdd_from_tt_labels(&b, bt, &block_labels);
+    // the chain is conjoined (disjoined) literal by literal from the deepest level upwards: one new node per step
+    let mut f = if case.disj { b.false_ptr() } else { b.true_ptr() };
+    let mut l = total;
+    while l > 0 {
+        l -= 1;
+        if is_block(l) {
+            if l == bstart {
+                f = if case.disj { b.or(block_bdd, f) } else { b.and(block_bdd, f) };
+            }
+            continue;
+        }
+        // conjunction: the chain literal; disjunction: its negation (so that the same assignment is the interesting one)
+        let lit = b.var(VarLabel::new_usize(l), pol(l) != case.disj);
+        f = if case.disj { b.or(lit, f) } else { b.and(lit, f) };
+    }
+    // what the diagram denotes is read by the harness's own walk; whether the builder made the intended function is C01's
+    // concern (recorded): chain satisfied + each block assignment
+    let mut base: Vec<bool> = (0..total).map(pol).collect();
+    let mut intended = true;
+    for a in 0..(1usize << bk) {
+        for (j, bl) in block_labels.iter().enumerate() {
+            base[*bl] = (a >> j) & 1 == 1;
+        }
+        let want = if case.disj { bt.get(a) } else { bt.get(a) };
+        if crate::big::bdd_eval(f, &base) != want {
+            intended = false;
+        }
+    }
+    st.flag("deep.builder_made_another_function(C01's concern)", !intended);
+    if !intended {
+        return Ok(());
+    }
+    let mut reps: Vec<(&str, BddPtr)> = vec![("BDD", f), ("negated BDD", f.neg())];
+    let td = StandardDecisionNNFBuilder::new(VarOrder::linear_order(total));
+    if !case.disj {
+        // the same function compiled top-down: one unit clause per chain literal, one maximal clause per falsifying
+        // assignment of the block
+        let mut cl: Vec<Vec<rsdd::repr::Literal>> = Vec::new();
+        for l in 0..total {
+            if !is_block(l) {
+                cl.push(vec![rsdd::repr::Literal::new(VarLabel::new_usize(l), pol(l))]);
+            }
+        }
+        for a in 0..(1usize << bk) {
+            if !bt.get(a) {
+                cl.push(block_labels.iter().enumerate().map(|(j, bl)| rsdd::repr::Literal::new(VarLabel::new_usize(*bl), (a >> j) & 1 == 0)).collect());
+            }
+        }
+        let cnf = rsdd::repr::Cnf::new(&cl);
+        let d = td.compile_cnf_topdown(&cnf);
+        let mut same = true;
+        for a in 0..(1usize << bk) {
+            for (j, bl) in block_labels.iter().enumerate() {
+                base[*bl] = (a >> j) & 1 == 1;
+            }
+            same &= crate::big::bdd_eval(d, &base) == bt.get(a);
+        }
+        st.flag("deep.top_down_made_another_function(C06's concern)", !same);
+        if same {
+            reps.push(("top-down d-DNNF", d));
+            reps.push(("negated top-down d-DNNF", d.neg()));
+        }
+    }
+    // evaluate(): chain satisfied with every block assignment, and single chain literals flipped at several depths
+    let mut probes: Vec<Vec<bool>> = Vec::new();
+    for a in 0..(1usize << bk) {
+        for (j, bl) in block_labels.iter().enumerate() {
+            base[*bl] = (a >> j) & 1 == 1;
+        }
+        probes.push(base.clone());
+    }
+    for s in 0..12u64 {
+        let mut a = probes[(s as usize) % probes.len()].clone();
+        let l = (splitmix(case.seed ^ 0xF11B ^ s) as usize) % total;
+        a[l] = !a[l];
+        probes.push(a);
+    }
+    for (name, r) in reps.iter() {
+        for a in probes.iter() {
+            let got = r.evaluate(a);
+            let want = crate::big::bdd_eval(*r, a);
+            ensure!(got == want, "C07/evaluate", "evaluate() on the {} ({} decisions deep) = {} but walking the diagram under the same assignment gives {}", name, total, got, want);
+        }
+    }
+    // finite field: normalised random residues on every variable
+    let wf = |l: usize, bit: bool| -> u128 {
+        let x = splitmix(case.seed ^ 0xFF1E1D ^ (l as u64).wrapping_mul(0xD134_2543_DE82_EF95)) as u128 % P;
+        let x = match x % 11 {
+            0 => 1,
+            1 => P - 1,
+            _ => x,
+        };
+        if bit {
+            x
+        } else {
+            (P + 1 - x) % P
+        }
+    };
+    let block_count_ff = {
+        let mut acc = 0u128;
+        for a in 0..(1usize << bk) {
+            if bt.get(a) {
+                let mut pr = 1u128;
+                for (j, bl) in block_labels.iter().enumerate() {
+                    pr = mulmod(pr, wf(*bl, (a >> j) & 1 == 1), P);
+                }
+                acc = (acc + pr) % P;
+            }
+        }
+        acc
+    };
+    // conjunction: prod w(chain literal) * count(block); disjunction of negated literals and the block:
+    // 1 - prod w(chain literal) * (1 - count(block))
+    let mut chain = 1u128;
+    for l in 0..total {
+        if !is_block(l) {
+            chain = mulmod(chain, wf(l, pol(l)), P);
+        }
+    }
+    let want_ff = if case.disj { (P + 1 - mulmod(chain, (P + 1 - block_count_ff) % P, P)) % P } else { mulmod(chain, block_count_ff, P) };
+    let pf = params_of(total, &|l, bit| FiniteField::<P>::new(wf(l, bit)));
+    for (name, r) in reps.iter() {
+        let got = r.unsmoothed_wmc(&pf).value();
+        let w = if name.starts_with("negated") { (P + 1 - want_ff) % P } else { want_ff };
+        ensure!(
+            got == w,
+            "C07/normalised-count:finite-field(deep)",
+            "{} of a chain of {} literals with a block of {} variables at position {} ({}): the count over GF(2^64-59) is {}; the product of the literal weights and the block's brute-force count gives {}",
+            name,
+            k,
+            bk,
+            bstart,
+            if case.disj { "disjunction" } else { "conjunction" },
+            got,
+            w
+        );
+    }
+    // reals (conjunction only): the chain literal's weight is a power of two, the block's weights are eighths: exact
+    if !case.disj {
+        let wr = |l: usize, bit: bool| -> f64 {
+            let x = splitmix(case.seed ^ 0x4EA1 ^ (l as u64).wrapping_mul(0x9E37_79B9_7F4A_7C15));
+            if is_block(l) {
+                let hi = (1 + x % 7) as f64 / 8.0;
+                return if bit { hi } else { 1.0 - hi };
+            }
+            // mostly 1, sometimes 1/2 or 1/4, on the literal's own side
+            let own = match x % 16 {
+                0 => 0.25,
+                1 | 2 => 0.5,
+                _ => 1.0,
+            };
+            if bit == pol(l) {
+                own
+            } else {
+                1.0 - own
+            }
+        };
+        let mut want = 0f64;
+        for a in 0..(1usize << bk) {
+            if bt.get(a) {
+                let mut pr = 1f64;
+                for (j, bl) in block_labels.iter().enumerate() {
+                    pr *= wr(*bl, (a >> j) & 1 == 1);
+                }
+                want += pr;
+            }
+        }
+        for l in 0..total {
+            if !is_block(l) {
+                want *= wr(l, pol(l));
+            }
+        }
+        let pr = params_of(total, &|l, bit| RealSemiring(wr(l, bit)));
+        for (name, r) in reps.iter().filter(|(n, _)| !n.starts_with("negated")) {
+            let got = r.unsmoothed_wmc(&pr).0;
+            ensure!(
+                got == want,
+                "C07/normalised-count:real(deep)",
+                "{} of a chain of {} literals with a block of {} variables at position {}: the real count is {}; the product form gives {}",
+                name,
+                k,
+                bk,
+                bstart,
+                got,
+                want
+            );
+        }
+    }
+    st.flag(
+        match total {
+            0..=255 => "deep.depth.le255",
+            256..=511 => "deep.depth.256-511",
+            512..=1023 => "deep.depth.512-1023",
+            _ => "deep.depth.ge1024",
+        },
+        true,
+    );
+    st.flag("deep.top_down_too", reps.len() > 2);
+    if total >= 256 {
+        st.mark_nontrivial();
+    }
+    Ok(())
+}
+
+impl SubCheckT for Deep {
+    type Case = DeepCase;
+    const NAME: &'static str = "deep_diagrams";
+    const RULE: &'static str = "a chain of 8..1400 literals with a random block of 2..5 variables above, below or in the middle of it (linear order), as a conjunction or as the disjunction of the negated literals and the block; canonical BDD, its negation and (conjunction) the top-down d-DNNF of the corresponding CNF and its negation, all first read back by the harness's own walk; evaluate() on the chain-satisfying assignments and on assignments with one variable flipped at a random depth = that walk; count over GF(2^64-59) under normalised random residues = product of the chain literals' weights times the block's brute-force count (disjunction: one minus the product of the complements); real count with power-of-two weights on the chain and eighths on the block = the same product, exactly. Non-trivial: a path of >= 256 decisions";
+    fn cases(tier: Tier) -> u32 {
+        tier.pick(120, 2400)
+    }
+    fn strategy(_tier: Tier) -> BoxedStrategy<DeepCase> {
+        (
+            prop_oneof![1 => 8u16..=255, 1 => 256u16..=511, 3 => 512u16..=1023, 2 => 1024u16..=1400],
+            (2u8..=5, any::<u32>()),
+            0u8..3,
+            proptest::bool::weighted(0.3),
+            any::<u64>(),
+        )
+            .prop_map(|(k, block, block_pos, disj, seed)| DeepCase { k, block, block_pos, disj, seed })
+            .boxed()
+    }
+    fn run(case: &DeepCase, st: &mut Stats) -> CaseResult {
+        WMODE.with(|m| m.set((case.seed >> 9) as u8));
+        run_deep(case, st)
+    }
+}
+
 pub fn property() -> Property {
     Property {
         id: "C07",
-        subs: vec![sub::<Counts>(), sub::<ProductForm>()],
+        subs: vec![sub::<Counts>(), sub::<ProductForm>(), sub::<Deep>()],
         fuzz: vec![],
         assumptions: vec![
-            "truth-table part: functions over <= 7 variables; sub-check product_form_many_variables: 20..150 labels, functions that factor into blocks of <= 5 variables",
+            "truth-table part: functions over <= 7 variables; sub-check product_form_many_variables: 20..150 labels, functions that factor into blocks of <= 5 variables; sub-check deep_diagrams: chains of up to 1400 literals with one such block",
             "exactly representable weights (dyadics, small integers, residues) so that every comparison is ==",
             "RationalSemiring weights are naturals built from one()/zero() (private field)",
             "top-down diagrams are counted only when they denote the CNF (that is C06's question)",
